@@ -270,7 +270,7 @@ class Exec:
         for ev in schedule if schedule is not None else self.case.get('schedule', []):
             self.event(ev)
 
-    def settle(self, play=False, resumes=None, open_gates=True, max_rounds=8):
+    def settle(self, play=False, resumes=None, open_gates=True, max_rounds=8, final_play=True):
         """Completion phase: drain; then repeatedly enable what is allowed and drain again.
 
         ``resumes``: list of values; the j-th value is delivered (once) when the process sits in its j-th
@@ -296,7 +296,7 @@ class Exec:
                     progressed = True
             if not progressed:
                 break
-        if play and self.proc.paused:
+        if play and final_play and self.proc.paused:
             # every run is completed by a final play, also when the process terminated while a pause was in effect
             self.event(['play'], who='settle')
         self.drain()
